@@ -36,6 +36,7 @@ ROLES = {"state": "STATE", "control": "CONTROL", "calibration": "CALIB"}
 class Guard:
     def __init__(self, mod, qual, node, test, negated, ctxs, order):
         self.mod, self.qual, self.node, self.test, self.negated, self.ctxs, self.order = mod, qual, node, test, negated, ctxs, order
+        self.toothless = False
         # ctxs: list of ("for", ast.For) / ("if", test, polarity) / ("try",) enclosing the guard, outermost first
 
     @property
@@ -144,6 +145,10 @@ def guards_of(mod, qual, fn) -> List[Guard]:
         for s in stmts:
             counter[0] += 1
             if isinstance(s, ast.If):
+                if not any(isinstance(x, (ast.Raise, ast.Return, ast.Assert)) for x in ast.walk(s)) and not s.orelse:
+                    g0 = Guard(mod, qual, s, s.test, False, list(ctxs), counter[0])
+                    g0.toothless = True          # a test that raises nothing: only counts as evidence that the check was meant (see run)
+                    out.append(g0)
                 if any(isinstance(b, ast.Raise) for b in s.body):
                     out.append(Guard(mod, qual, s, s.test, False, list(ctxs), counter[0]))
                 if any(isinstance(b, ast.Raise) for b in s.orelse):
@@ -256,8 +261,16 @@ def expand(g: Guard, fn) -> Guard:
     return g
 
 
-def classify(g: Guard, fn, graph: Graph) -> List[str]:
+def classify(g: Guard, fn, graph: Graph, _probe=False) -> List[str]:
     """fault classes (cells) this guard discharges"""
+    if not _probe:
+        out0 = classify(g, fn, graph, _probe=True)
+        if out0:
+            return out0
+        # the same test with the opposite polarity would discharge a cell: this guard raises exactly when the definition is *fine*
+        flipped = Guard(g.mod, g.qual, g.node, g.test, not g.negated, g.ctxs, g.order)
+        inv = [c for c in classify(flipped, fn, graph, _probe=True) if not c.startswith("weak|") and c not in ("F5:erasable",)]
+        return ["inverted|" + c for c in inv]
     env = local_env(fn)
     g = expand(g, fn)
     t = g.test
@@ -290,7 +303,9 @@ def classify(g: Guard, fn, graph: Graph) -> List[str]:
             if {ll, lr} == {"process_noise", "CONTROL"}:
                 out.append("F4b")
             rl, rr = role_of(l, env), role_of(r, env)
-            is_set = lambda e: isinstance(e, ast.Call) and isinstance(e.func, ast.Name) and e.func.id in ("set", "frozenset") or (isinstance(e, ast.Name) and _is_set_name(e.id, env))
+            is_set = lambda e: isinstance(e, ast.Call) and isinstance(e.func, ast.Name) and e.func.id in ("set", "frozenset") \
+                or (isinstance(e, ast.Name) and _is_set_name(e.id, env)) \
+                or (isinstance(e, ast.Call) and isinstance(e.func, ast.Attribute) and e.func.attr == "keys" and not e.args)      # a keys view compares like a set
             if {rl, rr} == {"calibration_map", "CALIB"} and ll is None and lr is None and is_set(l):
                 out.append("F3")
             if {rl, rr} == {"sensor_models", "sensor_noises"} and ll is None and lr is None:
@@ -426,13 +441,20 @@ def run(ctx: core.Ctx) -> int:
     all_guards = 0
     ui_unclassified = []
     ui_weak = {}
+    ui_inverted = []
+    ui_toothless = []
     for g in guards_of("ui_model", "Model.__init__", uim):
+        if g.toothless:
+            ui_toothless += [(c, g) for c in classify(g, uim, graph) if "|" not in c]
+            continue
         all_guards += 1
         cs = classify(g, uim, graph)
         if not cs:
             ui_unclassified.append((g, uim))
         for c in cs:
-            if c.startswith("weak|"):
+            if c.startswith("inverted|"):
+                ui_inverted.append((c.split("|", 1)[1], g))
+            elif c.startswith("weak|"):
                 _, cellname, why_ = c.split("|", 2)
                 ui_weak.setdefault(cellname, (why_, g))
             else:
@@ -450,16 +472,24 @@ def run(ctx: core.Ctx) -> int:
         cells: Dict[str, Guard] = dict(ui_cells)
         erasable = []
         weak = dict(ui_weak)
+        inverted = list(ui_inverted)
+        toothless = list(ui_toothless)
         unclassified = list(ui_unclassified)
         graph.generator_cls = "ExtendedKalmanFilter" if name.endswith("_ekf") else "Model"
         for m, q, f in graph.reach(mod, name):
             BINDS[id(f)] = graph.binds.get((m, q), {})
             for g in guards_of(m, q, f):
+                if g.toothless:
+                    toothless += [(c, g) for c in classify(g, f, graph) if "|" not in c]
+                    continue
                 all_guards += 1
                 cs = classify(g, f, graph)
                 if not cs:
                     unclassified.append((g, f))
                 for c in cs:
+                    if c.startswith("inverted|"):
+                        inverted.append((c.split("|", 1)[1], g))
+                        continue
                     if c.startswith("weak|"):
                         _, cellname, why_ = c.split("|", 2)
                         weak.setdefault(cellname, (why_, g))
@@ -481,10 +511,22 @@ def run(ctx: core.Ctx) -> int:
                            file=FILES[g.mod], func=g.qual, construct="F5 erasable",
                            msg="the sensor-symbol check does not raise where the fault is found: the per-reading result is stored and can be "
                                "overwritten by a later (clean) reading of the same sensor before it is reported", line=g.line)
+        for cellname, ig in inverted:
+            if cellname in need_cells[ent]:
+                ctx.oblige("VALID-MATRIX", ent, f"{cellname}: guard with inverted polarity", False, file=FILES[ig.mod], func=ig.qual,
+                           construct=f"cell {cellname} inverted",
+                           msg=f"the guard `{ig.text()[:80]}` at {FILES[ig.mod]}:{ig.line} raises exactly when the definition is fine as far as fault class "
+                               f"{cellname} ({_explain(cellname)}) goes, and lets the faulty ones through", line=ig.line)
         row = {}
         for c in need_cells[ent]:
             g = cells.get(c)
             row[c] = f"{FILES[g.mod]}:{g.qual}:{g.line}" if g else None
+            tl = [tg for tc, tg in toothless if tc == c]
+            if g is None and tl:
+                ctx.oblige("VALID-MATRIX", ent, f"{c}: tested but not refused", False, file=FILES[tl[0].mod], func=tl[0].qual, construct=f"cell {c} toothless {ent}",
+                           msg=f"{ent}: fault class {c} ({_explain(c)}) is tested at {FILES[tl[0].mod]}:{tl[0].line} (`{tl[0].text()[:70]}`) but nothing is raised there, "
+                               f"and no other guard refuses it", line=tl[0].line)
+                continue
             if g is None and c in weak:
                 why, wg = weak[c]
                 ctx.oblige("VALID-MATRIX", ent, f"{c}: only a weaker guard", False, file=FILES[wg.mod], func=wg.qual, construct=f"cell {c} weak {ent}",
